@@ -60,6 +60,9 @@ func BigVal(a *big.Int) uint64
 func BigOf(v uint64) *big.Int
 func BigSet(dst *big.Int, v uint64)
 
+// BigOfBytes: the number big.Int.SetBytes yields for these bytes (abstractly: identified with the bytes).
+func BigOfBytes(b []byte) *big.Int
+
 // Havoc returns an arbitrary value of type T, materialised lazily field by field.
 func Havoc[T any](name string) T {
 	var z T
